@@ -541,6 +541,7 @@ func (ch c02) Run(c *core.Ctx) {
 			if si%ch.Batches(c.Tier) != c.Batch || c.NViol() >= 10 {
 				continue
 			}
+			more := 0
 			mk := func(k int) *tr.Conn {
 				sess := c04sess()
 				if p, ok := c04genProgs[s.Name]; ok {
@@ -548,7 +549,7 @@ func (ch c02) Run(c *core.Ctx) {
 				}
 				conn := tr.NewConn(sess)
 				conn.NoLog = true
-				conn.TempWriteAt = k
+				conn.TempWriteAt, conn.TempWriteMore = k, more
 				if s.Auth {
 					envAuth.L.DialConn(conn)
 				} else {
@@ -569,7 +570,12 @@ func (ch c02) Run(c *core.Ctx) {
 				c.Inconclusive("connection did not close (C02 interrupted-write workload)")
 				return
 			}
-			for k := 1; k <= base.Stats().Writes; k++ {
+			for kk := 2; kk <= 2*base.Stats().Writes+1; kk++ {
+				// every k once as a single interruption, once with the following one or two Write calls
+				// interrupted as well (a peer that stays slow: a server that resumes the message has to
+				// resume it at the right byte each time)
+				k := kk / 2
+				more = (kk % 2) * (1 + k%2)
 				conn := mk(k)
 				if conn == nil {
 					c.Inconclusive("connection did not close (C02 interrupted-write workload)")
@@ -586,7 +592,7 @@ func (ch c02) Run(c *core.Ctx) {
 					c.Count("interrupted_writes_delivered", 1)
 				}
 				c.Count("backend_messages_parsed", int64(len(msgs)))
-				cs := map[string]any{"session": s.Name, "interrupted_write": k}
+				cs := map[string]any{"session": s.Name, "interrupted_write": k, "further_interrupted_writes": more}
 				if err != nil {
 					c.Violate("grammar", "after an interrupted write: "+grammarSig(err), fmt.Sprintf("%s, write %d interrupted half-way: %v; messages before it: %s; raw tail: %s", s.Name, k, err, trim(pg.Kinds(msgs), 300), hexs(out[len(out)-min(len(out), rest):])), cs)
 					break
@@ -663,6 +669,13 @@ func (ch c02) writerModel(c *core.Ctx, rng *core.Rng, idx int) {
 	sink := &flakySink{failAt: map[int]int{}}
 	for k := rng.Intn(3); k > 0; k-- {
 		sink.failAt[1+rng.Intn(6)] = 1 + rng.Intn(4)
+	}
+	if rng.Intn(4) == 0 {
+		// a sink that stays slow: two to four Write calls in a row take half and report a timeout
+		at := 1 + rng.Intn(5)
+		for j := 0; j < 2+rng.Intn(3); j++ {
+			sink.failAt[at+j] = 3
+		}
 	}
 	w := buffer.NewWriter(hs.Quiet, sink)
 	var want []byte
